@@ -133,7 +133,8 @@ def concretise(tokens, names, spelling, ws):
     return out
 
 
-PROVIDER_KINDS = ["sm_prop", "sm_method", "sm_attr", "model_method", "model_attr", "listener_method", "listener_prop"]
+PROVIDER_KINDS = ["sm_prop", "sm_method", "sm_attr", "model_method", "model_attr", "listener_method", "listener_prop",
+                  "helper_method"]
 
 
 DECLS = ["itself", "to", "from", "any", "any_or", "to_or"]
@@ -160,6 +161,7 @@ def build_machine(exprs, names, kinds, coro=(), decl="itself"):
 
     sm_attrs, model_attrs, lis_attrs = {}, {}, {}
     plain = []
+    helper_names = []
     for n in NAMES:
         box[n] = 0
     for n in NAMES:
@@ -181,6 +183,23 @@ def build_machine(exprs, names, kinds, coro=(), decl="itself"):
             lis_attrs[real] = f
         elif kind == "listener_prop":
             lis_attrs[real] = property(f)
+        elif kind == "helper_method":
+            # an entry that is exactly this name is given as a CALLABLE: the bound method of a helper object that keeps
+            # the value in its own attributes (inside larger expressions the name resolves to a method of the machine)
+            sm_attrs[real] = f
+            helper_names.append((n, real))
+    helper = None
+    if helper_names:
+        def hmethod(abstract):
+            def get(self_, *a, **k):
+                log.append(abstract)
+                return self_.vals[abstract]
+            return get
+        helper = type("GHelper", (), {real: hmethod(n) for n, real in helper_names})()
+        helper.vals = {n: 0 for n, _ in helper_names}
+        box["__helper__"] = helper
+        by_real = {real: n for n, real in helper_names}
+        exprs = [((getattr(helper, t) if t in by_real else t), e) for t, e in exprs]
     s0 = State(initial=True)
     conds = [t for t, e in exprs if e]
     unless = [t for t, e in exprs if not e]
@@ -213,6 +232,9 @@ def build_machine(exprs, names, kinds, coro=(), decl="itself"):
 def set_values(sm, model, plain, box, val):
     for n in NAMES:
         box[n] = pyval(val[n])
+    if "__helper__" in box:
+        for n in box["__helper__"].vals:
+            box["__helper__"].vals[n] = box[n]
     for where, n, real in plain:
         setattr(sm if where == "sm" else model, real, box[n])
 
